@@ -50,7 +50,7 @@ INVARIANT Terminal
 CHECK_DEADLOCK FALSE
 """
 
-SAMPLER_FILES = ("samplers/", "evidence.py", "flowsampler.py")
+SAMPLER_FILES = ("samplers/", "evidence.py", "flowsampler.py", "utils/io.py")
 
 
 def spec_part(scratch, v):
@@ -71,7 +71,9 @@ def spec_part(scratch, v):
 
 
 def base(seed, nlive=10):
-    s = std_spec("gauss2", seed, nlive, maximum_uninformed=nlive, checkpoint_interval=1000000, stopping=0.5)
+    # a periodic checkpoint is written in every update_state, so the lines of checkpoint(),
+    # safe_file_dump and the __getstate__ methods are part of every iteration
+    s = std_spec("gauss2", seed, nlive, maximum_uninformed=nlive, checkpoint_interval=1, stopping=0.5)
     s["signal_handling"] = True
     return s
 
